@@ -4,6 +4,7 @@ import (
 	"fmt"
 	"runtime"
 	"strings"
+	"sync"
 
 	"github.com/uhppoted/uhppote-core/encoding/bcd"
 
@@ -176,6 +177,69 @@ func checkAfterReject(c afterRejectCase) *rp.Fail {
 func sweepAfterReject(yield func(afterRejectCase) bool) {
 	cases := []afterRejectCase{{Bytes: 262144, Rounds: 150, BadAt: 5}, {Bytes: 65536, Rounds: 300, BadAt: 0}, {Bytes: 1 << 20, Rounds: 30, BadAt: 4097}, {Bytes: 70001, Rounds: 200, BadAt: 69999}}
 	for i, c := range cases {
+		if ev.Mine(i) && !yield(c) {
+			return
+		}
+	}
+}
+
+// Many goroutines decode their OWN value of 9..64 bytes (longer than any field of the protocol, shorter than 'bulk') over and
+// over, more goroutines than processors: everybody gets the digits of the value they passed.
+type midCase struct {
+	Bytes   int `json:"bytes"`
+	Workers int `json:"workers"`
+	Rounds  int `json:"rounds"`
+}
+
+func checkMid(c midCase) *rp.Fail {
+	ev.Case("decode/concurrent-mid-size-values", true, fmt.Sprint(c))
+	var mu sync.Mutex
+	var fail *rp.Fail
+	var wg sync.WaitGroup
+	start := make(chan struct{})
+	for w := 0; w < c.Workers; w++ {
+		wg.Add(1)
+		go func(w int) {
+			defer wg.Done()
+			in := make([]byte, c.Bytes)
+			for i := range in {
+				in[i] = byte(((w+i)%10)<<4 | (w*3+i)%10)
+			}
+			var want strings.Builder
+			for _, b := range in {
+				want.WriteByte('0' + b>>4)
+				want.WriteByte('0' + b&15)
+			}
+			<-start
+			for r := 0; r < c.Rounds; r++ {
+				got, err := bcd.Decode(in)
+				if err != nil || got != want.String() {
+					mu.Lock()
+					if fail == nil {
+						fail = rp.Failf("bcd.Decode/concurrent/wrong-digits", "goroutine %d of %d, call %d: Decode(%x) = %q, %v while the others were decoding their own %d-byte values", w, c.Workers, r, in, got, err, c.Bytes)
+					}
+					mu.Unlock()
+					return
+				}
+				if r%64 == 0 {
+					mu.Lock()
+					stop := fail != nil
+					mu.Unlock()
+					if stop {
+						return
+					}
+				}
+			}
+		}(w)
+	}
+	close(start)
+	wg.Wait()
+	return fail
+}
+
+func sweepMid(yield func(midCase) bool) {
+	n := runtime.GOMAXPROCS(0)
+	for i, c := range []midCase{{Bytes: 24, Workers: 4 * n, Rounds: 20000}, {Bytes: 9, Workers: 3 * n, Rounds: 20000}, {Bytes: 64, Workers: 4 * n, Rounds: 10000}, {Bytes: 33, Workers: 2 * n, Rounds: 20000}} {
 		if ev.Mine(i) && !yield(c) {
 			return
 		}
